@@ -97,6 +97,12 @@ Theorem C11_refuted_letvalue :
   in_F w_kf_letvalue = false /\ model_out w_kf_letvalue = SL [SZ (-1); SZ 940] /\ spec_out w_kf_letvalue = SL [SZ 5].
 Proof. exact refuted_letvalue. Qed.
 
+(* C11-g: a nested match of the declared type with a keyword constraint over a None-valued Optional attribute raises
+   AttributeError (outcome [-1; 1470]) where the Spec simply does not match that element *)
+Theorem C11_refuted_nonevalue :
+  in_F w_kf_nonevalue = false /\ model_out w_kf_nonevalue = SL [SZ (-1); SZ 1470] /\ spec_out w_kf_nonevalue = SL [SZ 3].
+Proof. exact refuted_nonevalue. Qed.
+
 (* ---- repaired defects: the former witnesses are inside F11 and answered as the Spec says ---- *)
 (* C11-a (ded4892): value-equal collections no longer collapse *)
 Theorem C11_fixed_any_dedup :
@@ -142,6 +148,7 @@ Print Assumptions C11_vacuous_keyword.
 Print Assumptions C11_fragment_flag_lax.
 Print Assumptions C11_refuted_empty_nested.
 Print Assumptions C11_refuted_letvalue.
+Print Assumptions C11_refuted_nonevalue.
 Print Assumptions C11_fixed_any_dedup.
 Print Assumptions C11_fixed_empty_list.
 Print Assumptions C11_fixed_exists_first.
